@@ -6,7 +6,8 @@
 (*               solo |-> its outcome as first call of a fresh process,    *)
 (*               acc |-> its accesses to scratch, census |-> digest of the *)
 (*               registries and of previously created objects afterwards]  *)
-(*   census0 = the digest right after import.                              *)
+(*   census0 = the digest right after import; full0 / full_end = complete,  *)
+(*   order-sensitive digests of all registries before / after the history. *)
 (***************************************************************************)
 EXTENDS Naturals, Sequences, FiniteSets, TLC, Json, IOUtils
 
@@ -27,6 +28,7 @@ HistoryOutcome(e) ==
     LET s == e.steps
     IN  IF FirstBad(s, LAMBDA x : x.out # x.solo) # 0 THEN "outcome-depends-on-history"
         ELSE IF FirstBad(s, LAMBDA x : x.census # e.census0) # 0 THEN "call-modified-registry-or-earlier-object"
+        ELSE IF e.full_end # e.full0 THEN "history-modified-a-registry"
         ELSE IF FirstBad(s, LAMBDA x : ~ReadsOwnWrites(x.acc, Written(s))) # 0 THEN "scratch-read-before-written"
         ELSE "ok"
 
